@@ -82,15 +82,18 @@ class SList(Sym):
     a z3 sequence ``seq``.
     ``uid``: name used for measures.
     """
-    __slots__ = ('length', 'elem', 'uid', 'cache', 'seq', 'immutable')
+    __slots__ = ('length', 'elem', 'uid', 'cache', 'seq', 'immutable', 'ident')
 
-    def __init__(self, length, elem, uid, seq=None):
+    def __init__(self, length, elem, uid, seq=None, ident=None):
         self.length = length
         self.elem = elem
         self.uid = uid
         self.cache = {}
         self.seq = seq
         self.immutable = True
+        # identity for ghost functions of the list: (family name, index terms) -- an input list is its own
+        # family; a list-valued attribute of an indexed / by-id object is identified by the owner's index
+        self.ident = ident
 
     def __repr__(self):
         return 'SList(%s, len=%s)' % (self.uid, self.length)
